@@ -201,6 +201,10 @@ def rule_e(ctx):
     pm = sn.calls_to('prepare_msg')
     se = sn.calls_to('UdpSocketState::set_sendmsg_einval')
     ctx.check(len(pm) == 2 and bool(sm) and bool(se), 'e', 'fallback_shape', sn, sn.where(), 'prepare_msg x2, sendmsg, set_sendmsg_einval', 'the EINVAL/EIO fallback structure of send() changed')
+    for c in pm:
+        a0 = arg_desc(F, c, 0)
+        ctx.check(a0[0] == 'param' and D.has_param(a0, name='transmit'), 'e', 'message_built_from_the_callers_transmit', sn, c.where(), 'prepare_msg(transmit, ..)',
+                  'prepare_msg is given a rewritten Transmit (%s): the retry may drop segment_size / ECN / src_ip of the datagram being sent' % D.render(a0)[:100])
     for s in se:
         # after setting the flag: prepare_msg again and reach sendmsg again without passing an Err return
         errs = {c.bb for c in constructions(F, 'Result', 'Err', crate='quinn_udp') if c.body.id == sn.id}
